@@ -40,7 +40,7 @@ BASES_CYC = [
 
 MUTATIONS = ["covlen_0", "covlen_neg", "covlen_big", "covlen_without_length_attr", "covlen_with_coverage", "nonstring_node", "cycle", "no_source", "no_sink", "negative", "negative_last", "missing", "nonconserving", "nonconserving_quarter", "cons_absent_arc", "cons_not_list", "cons_empty", "cons_nontuple",
              "coverage_0", "coverage_neg", "coverage_big", "coverage_nan", "covlen_nan", "k_0", "k_neg", "k_frac", "weight_type_str", "origin_foo", "unknown_start", "unknown_end", "scale_big", "scale_neg", "scale_nan", "empty_graph",
-             "k_0_superset", "k_neg_superset", "nan_weight", "inf_weight", "unknown_start_edge", "unknown_end_edge", "tolerance_nan"]
+             "k_0_superset", "k_neg_superset", "nan_weight", "inf_weight", "unknown_start_edge", "unknown_end_edge", "tolerance_nan", "cons_edge_as_list_after_tuple", "cons_edge_as_string_after_tuple"]
 
 
 def bounds(tier):
@@ -70,6 +70,8 @@ def applicable(cls, mut, origin):
         return cls in FD and origin == "edge"
     if mut.startswith("covlen"):
         return cls in DAG  # length coverage exists for the DAG models only
+    if mut in ("cons_edge_as_list_after_tuple", "cons_edge_as_string_after_tuple"):
+        return cls in HAS_CONS and origin == "node"  # (edge mode: the same shapes are cons_nontuple)
     if mut.startswith("cons_") or mut.startswith("coverage"):
         return cls in HAS_CONS
     if mut.startswith("k_"):
@@ -221,6 +223,11 @@ def _build(case):
             kw[ckey] = [first_arc] if origin == "edge" else [nodes[0]]
         elif m == "cons_empty":
             kw[ckey] = [[]]
+        elif m == "cons_edge_as_list_after_tuple":
+            # node mode, constraint in edge form whose SECOND element is not a tuple (the form is recognised from the first element only)
+            kw[ckey] = [[first_arc, [second_arc[0], second_arc[1]]]]
+        elif m == "cons_edge_as_string_after_tuple":
+            kw[ckey] = [[first_arc, second_arc[0] + second_arc[1]]]
         elif m == "cons_nontuple":
             kw[ckey] = [[[first_arc[0], first_arc[1]]]] if origin == "edge" else [[3]]
         elif m in ("coverage_0", "coverage_neg", "coverage_big", "coverage_nan"):
